@@ -13,6 +13,7 @@
 #include "esl_distance.h"
 #include "esl_dmatrix.h"
 #include "esl_quicksort.h"
+#include <unistd.h>
 
 #define MAXROWS 4096
 
@@ -112,6 +113,7 @@ static void out_filtered(ESL_MSA *msa, ESL_MSA *nw, int status)
 static void h_op(void)
 {
   const char *op = h_words[0];
+  alarm(120);   /* an op that does not come back is reported as a fault (signal 14) after 2 minutes, not after the batch timeout */
   if (!strcmp(op, "abc")) {
     const char *t = h_arg("t");
     clear_rows();
